@@ -120,6 +120,29 @@ fn real_main() -> i32 {
             }
             0
         }
+        "inproc" => {
+            // run cases [from, to) of one property in this very process (no workers): used under Miri
+            if args.len() < 6 {
+                usage();
+            }
+            let prop = find(&args[1]);
+            let tier = Tier::parse(&args[2]);
+            let seed: u64 = args[3].parse().unwrap_or(1);
+            let (from, to): (u64, u64) = (args[4].parse().unwrap_or(0), args[5].parse().unwrap_or(1));
+            let mut bad = 0;
+            for r in from..to {
+                let case = prop.make(seed, r, tier);
+                seams::log_reset(case.cfg.variant != "prod");
+                let mut ctx = runner::Ctx::new(tier);
+                let vs = prop.exec(&case, &mut ctx);
+                println!("inproc {} run {r}: evals={} violations={}", prop.id(), ctx.evals, vs.len());
+                for v in &vs {
+                    println!("  {} | {} | {}", v.clause, v.class, v.msg);
+                }
+                bad += vs.len();
+            }
+            i32::from(bad > 0)
+        }
         "replay" => {
             if args.len() < 2 {
                 usage();
